@@ -397,7 +397,50 @@ func c10R1(c *Check, sr *storeRoles) {
 						badAt = cc
 						continue
 					}
-					if h := reachFromBlocks(region, isUse, nil); h != nil {
+					// a use through a phi counts here only if the looked-up session can arrive at the phi from the
+					// expired region (after `s = nil` on the expired path the merged value is nil there)
+					viaRegion := func(v ssa.Value) bool {
+						ph, isPhi := v.(*ssa.Phi)
+						if !isPhi {
+							return true
+						}
+						for k, e := range ph.Edges {
+							carries := e == s
+							for _, l := range Leaves(e, leafOpts{noConcat: true}) {
+								if l == s {
+									carries = true
+								}
+							}
+							if !carries {
+								continue
+							}
+							pred := ph.Block().Preds[k]
+							for _, rb := range region {
+								if rb == pred || blockReaches(rb, pred) {
+									return true
+								}
+							}
+						}
+						return false
+					}
+					isUseAfterExpiry := func(i ssa.Instruction) bool {
+						if !isUse(i) {
+							return false
+						}
+						switch x := i.(type) {
+						case *ssa.FieldAddr:
+							return viaRegion(x.X)
+						case *ssa.Call:
+							for _, a := range x.Common().Args {
+								if isS(a) && viaRegion(a) {
+									return true
+								}
+							}
+							return false
+						}
+						return true
+					}
+					if h := reachFromBlocks(region, isUseAfterExpiry, nil); h != nil {
 						bad = true
 						badAt = h
 					}
